@@ -32,9 +32,9 @@ RULE = (
     "exhaustive small matrix: every class layout with 1-3 signal attributes x 1-3 instances x every first-access order of the (instance, "
     "attribute) pairs for <= 4 pairs (all permutations) on both backends; plus random layouts: 1-4 attributes spread over a base class and a "
     "subclass (inherited / overriding), 1-3 event classes, owner kinds {plain, __slots__+__weakref__, frozen dataclass with equal values}, 1-4 "
+    "instances, random access order. "
     "Wrong-class events include the Event base class, non-events and an unrelated class with the declared class' module and qualified name; a successor owner allocated at a collected owner's address. "
-    "instances, random access order. Non-trivial: >= 2 channels; distinct = (layout, owner kind, access order, backend)."
-)
+    "Non-trivial: >= 2 channels; distinct = (layout, owner kind, access order, backend).")
 DECIDING = {
     "channels_checked": "(instance, attribute) channels exercised",
     "delivery_matrix_cells": "cells of the subscriber x channel delivery matrix compared",
